@@ -54,7 +54,7 @@ Qed.
 Definition literal_op (o : op) : bool :=
   match o with
   | Get _ _ _ | Contains _ _ _ | Len _ _ | Keys _ _ | SetV _ _ _ _ | Del _ _ _ | Pop _ _ _ _
-  | SetDefault _ _ _ _ | Update _ _ _ => true
+  | SetDefault _ _ _ _ | Update _ _ _ | View _ _ | EqD _ _ _ | GetM _ _ _ _ => true
   | _ => false
   end.
 
@@ -71,6 +71,7 @@ Proof.
     destruct (get k d2), (get k d1); try discriminate; try reflexivity; destruct dflt; reflexivity.
   - pose proof (sim_has k d1 d2 Hn) as Hh. unfold has in *.
     destruct (get k d2), (get k d1); try discriminate; reflexivity.
+  - destruct (get k d2); reflexivity.
 Qed.
 
 (** [clear]: the same keys are deleted (the order may differ). *)
